@@ -627,10 +627,8 @@ fn push_feat(rng: &mut Rng, w: &mut CaseWriter) {
     let mut qual_missing = false;
     match rng.below(12) {
         0 => {
-            // missing qualities: only kept when the model predicts the panic (a 1-base match op)
-            if ops.iter().any(|o| o.len() == 1 && matches!(o.kind(), Kind::Match | Kind::SequenceMatch | Kind::SequenceMismatch)) {
-                qual_missing = true;
-            }
+            // missing qualities (QUAL `*`): the writer stores 0xff per base
+            qual_missing = true;
         }
         1 => {
             // the read overruns the end of the reference
